@@ -5,13 +5,13 @@ go 1.20
 require (
 	github.com/Workiva/frugal/lib/go v0.0.0
 	github.com/apache/thrift v0.19.0
+	github.com/go-stomp/stomp v2.1.4+incompatible
 	github.com/nats-io/nats-server/v2 v2.10.11
 	github.com/nats-io/nats.go v1.33.1
 	github.com/sirupsen/logrus v1.9.3
 )
 
 require (
-	github.com/go-stomp/stomp v2.1.4+incompatible // indirect
 	github.com/klauspost/compress v1.17.6 // indirect
 	github.com/minio/highwayhash v1.0.2 // indirect
 	github.com/nats-io/jwt/v2 v2.5.3 // indirect
